@@ -69,7 +69,6 @@ def run(rep):
         "std::vec::Vec<V>": "Value::Array(self)",
         "std::collections::HashSet<V>": "Value::Array(self)",
         "O": "Value::Object(self)",
-        "std::option::Option<V>": "<T>::unwrap_or(<T>::map(<T>::as_ref(self), |closure {closure#0}|), Value::Null)",
     }
     for ty, want in simple.items():
         f = body_of(ty)
@@ -79,10 +78,31 @@ def run(rep):
             continue
         s = show(f.body)
         rep.check(s == want, "T-ADAPT", key, f.sp, "%s -> %s" % (ty, want), s)
+    # Option<V>: Some(v) -> v.as_value(), None -> Null; as  self.as_ref().map(|v| v.as_value()).unwrap_or(Value::Null)  or as a match / if let
+    of = body_of("std::option::Option<V>")
     oc = F.fn(impl_name("std::option::Option<V>") + "::{closure#0}")
-    rep.check(bool(oc) and show(oc.body) == "AsValue::as_value(v)", "T-ADAPT", "T-ADAPT/Option-inner", oc.sp if oc else "-", "Some(v) -> v.as_value()", show(oc.body) if oc else "-")
+    ok_outer = ok_inner = False
+    det = "-"
+    if of is not None:
+        det = show(of.body)
+        b = unblock(of.body)
+        if det == "<T>::unwrap_or(<T>::map(<T>::as_ref(self), |closure {closure#0}|), Value::Null)":
+            ok_outer = True
+            ok_inner = bool(oc) and show(oc.body) == "AsValue::as_value(v)"
+        else:
+            sc, brs = q.branches(b)
+            if sc is not None and q.base_var(sc) == strip_ref(of.thir["params"][0]["pat"]).get("id") and len(brs) == 2:
+                some = [(p, x) for p, x in brs if p is not None and facts.variant_of(p) == ("Option", "Some")]
+                none = [(p, x) for p, x in brs if p is None or facts.variant_of(p) == ("Option", "None")]
+                if len(some) == 1 and len(none) == 1 and none[0][1] is not None:
+                    inner = strip_ref(subpat(some[0][0], 0))
+                    sb = unblock(some[0][1])
+                    ok_inner = call_is(sb, "AsValue::as_value") and inner is not None and q.base_var(sb["args"][0]) == inner.get("id")
+                    ok_outer = show(unblock(none[0][1])) == "Value::Null"
+    rep.check(ok_outer, "T-ADAPT", "T-ADAPT/std::option::Option<V>", of.sp if of else "-", "None -> Value::Null", det)
+    rep.check(ok_inner, "T-ADAPT", "T-ADAPT/Option-inner", of.sp if of else "-", "Some(v) -> v.as_value()", det)
     # no other AsValue impl than the reviewed ones
-    reviewed = set(SIGNED) | set(UNSIGNED) | set(FLOATS) | set(simple) | {"serde_yaml::Value", "serde_json::Value"}
+    reviewed = set(SIGNED) | set(UNSIGNED) | set(FLOATS) | set(simple) | {"serde_yaml::Value", "serde_json::Value", "std::option::Option<V>"}
     for ty in impls:
         rep.check(ty in reviewed, "T-ADAPT", "T-ADAPT/reviewed/" + ty, impls[ty]["sp"], "AsValue impl is in the reviewed table", ty)
 
@@ -133,18 +153,32 @@ def run(rep):
         for c in chain:
             cond = peel(c["cond"])
             then = unblock(c["then"])
-            g = re.fullmatch(r"Number::is_(u64|i64|f64)\(n\)", show(cond))
-            t = re.fullmatch(r"Value::(UInt|Int|Float)\(<T>::unwrap\(Number::as_(u64|i64|f64)\(n\)\)\)", show(then))
-            key = "T-NUMBER/%s/%s" % (mod, g.group(1) if g else show(cond)[:20])
-            ok = bool(g) and bool(t) and g.group(1) == t.group(2) and {"u64": "UInt", "i64": "Int", "f64": "Float"}[g.group(1)] == t.group(1) and q.var_id(cond["args"][0]) == nid
+            # two spellings of one link:  if n.is_X() { Value::K(n.as_X().unwrap()) }   /   if let Some(v) = n.as_X() { Value::K(v) }
+            gk = tk = tkind = None
+            payload = peel(then["fields"][0]["e"]) if then.get("k") == "Adt" and then["adt"].endswith("value::Value") and then.get("fields") else None
+            tkind = then.get("variant") if payload is not None else None
+            if cond.get("k") == "Call" and re.search(r"Number::is_(u64|i64|f64)$", cond.get("fn") or "") and q.var_id(cond["args"][0]) == nid:
+                gk = cond["fn"][-3:]
+                acc = peel(payload["args"][0]) if payload is not None and (call_is(payload, "::unwrap") or call_is(payload, "::expect")) else None
+                if acc is not None and re.search(r"Number::as_(u64|i64|f64)$", acc.get("fn") or "") and q.var_id(acc["args"][0]) == nid:
+                    tk = acc["fn"][-3:]
+            elif cond.get("k") == "LetCond" and facts.variant_of(cond["pat"]) == ("Option", "Some"):
+                acc = peel(cond["arg"])
+                b = strip_ref(subpat(cond["pat"], 0))
+                if re.search(r"Number::as_(u64|i64|f64)$", acc.get("fn") or "") and q.var_id(acc["args"][0]) == nid and b is not None and b.get("k") == "Bind" and payload is not None and q.var_id(payload) == b["id"]:
+                    gk = tk = acc["fn"][-3:]
+            key = "T-NUMBER/%s/%s" % (mod, gk if gk else show(cond)[:20])
+            ok = gk is not None and gk == tk and {"u64": "UInt", "i64": "Int", "f64": "Float"}[gk] == tkind
             rep.check(ok, "T-NUMBER", key, c["sp"], "is_X guard, as_X accessor and Value kind agree (u64->UInt, i64->Int, f64->Float)", "%s => %s" % (show(cond), show(then)))
-            if g:
-                kinds.append(g.group(1))
+            if gk:
+                kinds.append(gk)
         rep.check(set(kinds) == {"u64", "i64", "f64"}, "T-NUMBER", "T-NUMBER/%s/complete" % mod, na["sp"], "all three number representations are handled", str(kinds))
+        sib[mod + "/kinds"] = kinds
         # u64 is tested before i64 is not required; but a non-negative integer must become UInt in both adapters alike (sibling)
         sib[mod] = show(na["body"])
-    if len(sib) == 2:
-        rep.check(sib["yaml"] == sib["json"], "T-NUMBER", "T-NUMBER/sibling", "src/yaml.rs|src/json.rs", "yaml and json Number arms are identical", None if sib["yaml"] == sib["json"] else "differ")
+    if "yaml" in sib and "json" in sib:
+        same = sib["yaml"] == sib["json"] or sib.get("yaml/kinds") == sib.get("json/kinds")
+        rep.check(same, "T-NUMBER", "T-NUMBER/sibling", "src/yaml.rs|src/json.rs", "yaml and json Number arms try the representations in the same order (each link checked above)", None if same else "differ")
 
     # ---- containers
     for nm, want in (("<std::vec::Vec<V> as value::Array>::iter", "<T>::new(Iterator::map(<impl [T]>::iter(<T, A>::as_slice(self)), |closure {closure#0}|))"),
